@@ -14,6 +14,9 @@ CLAIMED = {
     "C09": ("Lean 4 theorems over translator-regenerated unit tables (decide +kernel over all unit pairs, lifted to every magnitude in any ordered field) + bit-exact correspondence run",
             "Proof: every clause of the property is a Lean theorem over the conversion tables regenerated from the Rust source on each run (identity, linearity, 0.1% round trip, 0.1% physical factor, create_time/create_speed/create_energy definitions and rejection), for all magnitudes in any linearly ordered field. The constructors' code shape is guarded by the translator and their behaviour tied by a bit-exact differential run on every unit combination.",
             "§5 C09"),
+    "C15": ("Lean 4 theorems by induction over the fold of the EdgeLoader row callback (insertion-ordered association lists per vertex) + differential run of the real Graph::from_files on CSV files written by the harness (plain and gzip) + direct oracle recomputing adjacency from the raw rows",
+            "Proof, partial: for every edge/vertex list in the documented format (ids are row numbers, endpoints are listed vertices) and explicit or scanned counts, the model of graph_from_files yields a graph whose get_edge / get_vertex / out_edges / in_edges (in file order, any degree) / edge_triplet / incident_* are exactly the listed rows, whose forward and reverse adjacency are permutations of the same edge ids, and per-edge tables are aligned by row (Lean theorems, all inputs, no bound on sizes or degrees); the loader's error kinds are theorems too. Partial in two senses: (1) file decoding - csv parsing, gzip, line counting - is not modelled and is covered only by the differential run (the model takes the decoded rows, which rows fail to decode, and the text line count as data), and the adjacency container is modelled abstractly as an insertion-ordered association list (its refinement is C11's); (2) for files outside that format the full statement is false of the code and machine-checked counterexamples are given (ids that are not row numbers, endpoints without a vertex row and a too-small declared vertex count are accepted silently; the missing_vertices set is collected and dropped).",
+            "§5 C15"),
 }
 
 NOT_YET = {
